@@ -178,8 +178,9 @@ def sync_case(part, item):
 
 def main(run: core.Run):
     thorough = run.tier == 'thorough'
-    depth = 6 if thorough else 5
-    items = [((a, b), depth) for a in OPS for b in OPS]
+    depth = 7 if thorough else 6
+    items = [((a, b, c), depth) for a in OPS for b in OPS for c in OPS] \
+        if thorough else [((a, b), depth) for a in OPS for b in OPS]
     core.pmap(run, prefix_case, items, chunk=1)
     core.pmap(run, sync_case, list(simdist.FIXED_SCHEDULES), procs=1)
     run.c['distinct_nontrivial'] = len(run.distinct.get('nontrivial', ()))
